@@ -235,6 +235,16 @@ def jobs(tier):
     return out
 
 
+def extra_engines(tier, seed):
+    from checks import ch_runner
+    return ch_runner.run('C17', tier, timeout=60 if tier == 'quick' else 300)
+
+
+MANIFEST = {
+    'engine': 'sx+crosshair',
+    'technique': 'symbolic execution of the real source with z3 (SX: construction forms, adjacency, malformed input) + CrossHair over selector-encoded uc record lists against the counting specification',
+}
+
 OPTS = {'quick': {'time_budget': 60}, 'thorough': {'time_budget': 900}}
 
 META = {
@@ -242,8 +252,10 @@ META = {
                    "triples with/without explicit zeros, dict, list of arrays / dicts / sparse rows, CSR (also unsorted with a stored zero), CSC, COO, COO "
                    "with duplicate entries) must construct tables holding exactly the described values and comparing equal to the dense construction; "
                    "from_adjacency on record lists with symbolic values (text holes) must yield the per-pair sums; every malformed combination from the menu "
-                   "(duplicate ids anywhere, too few/many ids, metadata too short/long/non-mapping/all-falsy) must raise TableException.",
-    'encoded': {'biom/table.py': ['__init__', '_to_sparse', 'coo_arrays_to_sparse', 'list_list_to_sparse', 'nparray_to_sparse',
+                   "(duplicate ids anywhere, too few/many ids, metadata too short/long/non-mapping/all-falsy) must raise TableException. (CrossHair) parse_uc / from-uc on "
+                   "record lists chosen by symbolic selectors (record type, query id, target id, interleaved comment/blank lines) against the counting specification.",
+    'encoded': {'biom/parse.py': ['parse_uc'], 'biom/cli/uc_processor.py': ['_from_uc', '_id_map_from_fasta'],
+                'biom/table.py': ['__init__', '_to_sparse', 'coo_arrays_to_sparse', 'list_list_to_sparse', 'nparray_to_sparse',
                                   'list_nparray_to_sparse', 'list_sparse_to_sparse', 'list_dict_to_sparse', 'dict_to_sparse', 'from_adjacency',
                                   '_cast_metadata', '__eq__'],
                 'biom/err.py': ['errcheck', 'test', '_test_obssize', '_test_sampsize', '_test_obsdup', '_test_sampdup', '_test_obsmdsize',
